@@ -3,10 +3,11 @@ import lanes
 import lanewords
 from props import c01_slane
 from props import c02_mainq
+from props import c02_sync
 
 PROPERTIES_FILE = "Properties/Properties_C02.v"
 COQ_DEPS = ["Proofs/Lane_iface.vo", "Proofs/SLane_progress.vo", "Proofs/SLane_measure.vo", "Proofs/SLane_realtime.vo"] + ["Model/LaneWords.vo"] + list(c01_slane.COQ_DEPS) + list(c02_mainq.COQ_DEPS)
-EXTRA_PROPERTIES_FILES = ["Properties/Properties_C02_slane.v", c01_slane.PROPERTIES_FILE, c02_mainq.PROPERTIES_FILE]
+EXTRA_PROPERTIES_FILES = ["Properties/Properties_C02_slane.v", c01_slane.PROPERTIES_FILE, c02_mainq.PROPERTIES_FILE, c02_sync.PROPERTIES_FILE]
 GEN_MODULES = ["Gen_dqstate", "Gen_lanesites", "Gen_once", "Gen_fields", "Gen_mainq"]
 LEVEL = "proof"
 TRUSTED = [
@@ -30,11 +31,17 @@ def correspond(ctx):
     return lanes.merge([lanes.run_part("lanes", lambda c: lanes.run(c, "C02"), ctx),
                         lanes.run_part("words", lambda c: lanewords.run(c, "C02"), ctx),
                         lanes.run_part("slane", lambda c: c01_slane.correspond(c, tag="c02_slane"), ctx),
-                        lanes.run_part("mainq", c02_mainq.correspond, ctx)])
+                        lanes.run_part("mainq", c02_mainq.correspond, ctx),
+                        lanes.run_part("sync_order", lambda c: c02_sync.correspond(c, tag="c02s"), ctx)])
 
 
 def replay(ctx, obj):
-    return lanes.replay_parts(ctx, obj, {"lanes": lanes.replay, "slane": c01_slane.replay, "mainq": c02_mainq.replay})
+    return lanes.replay_parts(ctx, obj, {"lanes": lanes.replay, "slane": c01_slane.replay, "mainq": c02_mainq.replay, "sync_order": c02_sync.replay})
 
 TRUSTED += ["main queue (Properties_C02_mainq.v, lib/props/c02_mainq.py): " + t for t in c02_mainq.TRUSTED]
 ASSUMPTIONS += list(c02_mainq.ASSUMPTIONS)
+
+COQ_DEPS += [d for d in c02_sync.COQ_DEPS if d not in COQ_DEPS]
+GEN_MODULES += [m for m in c02_sync.GEN_MODULES if m not in GEN_MODULES]
+TRUSTED += ["order across submission kinds (Properties_C02_sync.v, lib/props/c02_sync.py): " + t for t in c02_sync.TRUSTED]
+ASSUMPTIONS += list(c02_sync.ASSUMPTIONS)
